@@ -662,6 +662,9 @@ func build(tier string) []explore.Scenario {
 		{name: "teardown-context/destroy/obtained-in-every-reconcile", pre: []wop{"create a", "create b"}, script: []wop{"update b", "destroy a"}, prologue: true, readers: 0, bounds: b1, teardown: "a", tctxEvery: true},
 		{name: "teardown-context/destroy", pre: []wop{"create a", "create b"}, script: []wop{"destroy a"}, prologue: true, readers: 0, bounds: b1, teardown: "a"},
 		{name: "teardown-context/untouched", pre: []wop{"create a", "create b"}, script: []wop{"update b", "destroy b"}, prologue: true, readers: 0, bounds: b0, teardown: "a"},
+		// versions are numbers, not strings (seed c15i: a "newer than" guard comparing their text forms is right up to 9)
+		{name: "steady/version-crosses-a-decimal-digit/1reader", pre: []wop{"create a", "update a", "update a", "update a", "update a", "update a", "update a", "update a", "update a"}, script: []wop{"update a", "update a"}, prologue: true, readers: 1, nReads: 1, bounds: []int{0}},
+		{name: "teardown-context/teardown-past-version-9", pre: []wop{"create a", "update a", "update a", "update a", "update a", "update a", "update a", "update a", "update a", "create b"}, script: []wop{"update a", "teardown a"}, prologue: true, readers: 0, bounds: []int{0}, teardown: "a"},
 		{name: "teardown-context/absent", pre: []wop{"create b"}, script: []wop{"update b"}, prologue: true, readers: 0, bounds: b0, teardown: "a"},
 	}
 	var out []explore.Scenario
